@@ -93,6 +93,37 @@ SSpec == SInit /\ [][SNext]_gvars
 MNext == GNext \/ AddDef
 MSpec == GInit /\ [][MNext]_gvars
 
+\* ---------------------------------------------------------------- pairs: every kind of type-system definition, with and
+\* without a body, next to every kind of executable definition, in both orders (BFS, exhaustive)
+BodyLess == {<<"scalar", "T">>, <<"scalar", "T", "@", "d">>, <<"type", "T">>, <<"type", "T", "@", "d">>, <<"type", "T", "implements", "U">>,
+             <<"interface", "T">>, <<"interface", "T", "@", "d">>, <<"union", "U">>, <<"union", "U", "@", "d">>, <<"union", "U", "=", "T">>,
+             <<"enum", "E">>, <<"enum", "E", "@", "d">>, <<"input", "I">>, <<"input", "I", "@", "d">>, <<"directive", "@", "d", "on", "FIELD">>,
+             <<"directive", "@", "d", "(", "x", ":", "T", ")", "on", "FIELD">>,
+             <<"extend", "schema", "@", "d">>, <<"extend", "scalar", "T", "@", "d">>, <<"extend", "type", "T", "@", "d">>,
+             <<"extend", "type", "T", "implements", "U">>, <<"extend", "interface", "T", "@", "d">>, <<"extend", "union", "U", "@", "d">>,
+             <<"extend", "union", "U", "=", "T">>, <<"extend", "enum", "E", "@", "d">>, <<"extend", "input", "I", "@", "d">>}
+WithBody == {<<"type", "T", "{", "f", ":", "T", "}">>, <<"interface", "T", "{", "f", ":", "T", "}">>, <<"enum", "E", "{", "A", "}">>,
+             <<"input", "I", "{", "x", ":", "T", "}">>, <<"schema", "{", "query", ":", "T", "}">>, <<"schema", "@", "d", "{", "query", ":", "T", "}">>,
+             <<"extend", "schema", "{", "query", ":", "T", "}">>, <<"extend", "schema", "@", "d", "{", "query", ":", "T", "}">>,
+             <<"extend", "type", "T", "{", "f", ":", "T", "}">>, <<"extend", "interface", "T", "{", "f", "(", "x", ":", "T", ")", ":", "T", "}">>,
+             <<"extend", "enum", "E", "{", "A", "}">>, <<"extend", "input", "I", "{", "x", ":", "T", "}">>}
+BodyA == <<T("{", "sel_open"), T("a", "field"), T("}", "sel_close")>>
+ExecDefs == {<<T("query", "kw_op")>> \o BodyA, <<T("query", "kw_op"), T("Q", "op_name")>> \o BodyA, <<T("mutation", "kw_op")>> \o BodyA,
+             <<T("subscription", "kw_op")>> \o BodyA, <<T("query", "kw_op"), T("@", "at"), T("d", "dir_name")>> \o BodyA,
+             <<T("\"d\"", "desc"), T("query", "kw_op")>> \o BodyA,
+             <<T("query", "kw_op"), T("(", "punct"), T("$v", "var"), T(":", "punct"), T("T", "type"), T(")", "punct")>> \o BodyA,
+             <<T("fragment", "kw_frag"), T("F", "frag_name"), T("on", "kw_on"), T("T", "type_cond")>> \o BodyA}
+Shorthand == <<T("{", "sh_open"), T("a", "field"), T("}", "sel_close")>>
+Pairs == {S(sd) \o ed : sd \in BodyLess \cup WithBody, ed \in ExecDefs} \cup {ed \o S(sd) : sd \in BodyLess \cup WithBody, ed \in ExecDefs}
+         \cup {S(sd) \o Shorthand : sd \in WithBody} \cup {Shorthand \o S(sd) : sd \in BodyLess \cup WithBody}
+         \cup {S(a) \o S(b) \o <<T("query", "kw_op")>> \o BodyA : a \in {<<"input", "I", "{", "x", ":", "T", "}">>, <<"type", "T", "{", "f", ":", "T", "}">>},
+                                                              b \in BodyLess}
+PNext == /\ st = "top" /\ Len(toks) = 0
+         /\ \E p \in Pairs : toks' = p
+         /\ st' = "done" /\ ndefs' = 2
+         /\ UNCHANGED <<stack, fl, frags, nf, mx, cost>>
+PSpec == GInit /\ [][PNext]_gvars
+
 \* type-system documents contain no selections
 NoSelections == Depth(toks) = 0 /\ FieldCount(toks) = 0 /\ InlinedDepth(toks) = 0
 =============================================================================
